@@ -77,6 +77,8 @@ static ctx_t* run_ctx; static wait_t* run_wait;
 static unsigned depth, cur_slot, n_hooks, n_drain;
 static unsigned nestmask = NESTMASK, drainmask = DRAIN, nestpol = NESTPOL, force_local;   /* task order of the current run */
 static unsigned n_alloc, n_free, n_notify, n_tasks_run, n_waits;
+static unsigned n_spawn_plain, n_spawn_slot, n_aff_alloc, n_leaves;   /* partitioner signature of a run (OVERLOADS) */
+static int want_user_ctx = -1;                                        /* OVERLOADS: 1 tasks must run in the user's context, 0 must not, -1 unchecked */
 static int cancelled;
 static u64 dummy_pool;
 /* ghost state about bodies */
@@ -102,6 +104,7 @@ static void run_some(void);
 void vp_body_run(u32 id, u32 b, u32 e) {
   VP_ASSERT(id < n_bodies && !joined[id] && !destroyed[id], "body applied after it was joined away / destroyed");
   VP_ASSERT((int)b < (int)e && (int)b >= 0 && (int)e <= NELEM, "body applied to an empty or foreign range");
+  n_leaves++;
   if (id < MAXB) active[id]++;
   { unsigned h = n_hooks++;
     if (depth < NEST && (nestmask >> h & 1)) { depth++; run_some(); depth--; } }   /* other threads make progress while this body runs */
@@ -151,7 +154,8 @@ void _ZN3tbb6detail2r110initializeERNS0_2d118task_group_contextE(ctx_t* c) { vp_
 void _ZN3tbb6detail2r17destroyERNS0_2d118task_group_contextE(ctx_t* c) {}
 /* typed allocation (cbmc derives the object type from malloc(sizeof(T)); an untyped byte object would make every field read
    a byte_extract that symex cannot constant-fold, and then no loop bound in the task code is concrete) */
-#ifdef SCAN
+#if defined(SCAN) || defined(OVERLOADS)
+#define VP_UNTYPED_TASKS 1     /* several task types per unit: untyped objects, kept foldable by --max-field-sensitivity-array-size 256 */
 #elif defined(DETERMINISTIC)
 #define TASK_T struct S_struct_tbb__detail__d1__start_deterministic_reduce
 #define NODE_T struct S_struct_tbb__detail__d1__deterministic_reduction_tree_node
@@ -162,7 +166,7 @@ void _ZN3tbb6detail2r17destroyERNS0_2d118task_group_contextE(ctx_t* c) {}
 static u8* alloc_obj(pool_t** pool, u64 n) {
   u8* p;
   *pool = (pool_t*)&dummy_pool; n_alloc++;
-#ifndef SCAN
+#ifndef VP_UNTYPED_TASKS
   VP_ASSERT(n == sizeof(TASK_T) || n == sizeof(NODE_T), "VP: allocation of an unexpected size");
   if (n == sizeof(TASK_T)) p = malloc(sizeof(TASK_T)); else p = malloc(sizeof(NODE_T));
 #else
@@ -182,9 +186,10 @@ void _ZN3tbb6detail2r110deallocateERNS0_2d117small_object_poolEPvm(pool_t* pool,
 void _ZN3tbb6detail2r15spawnERNS0_2d14taskERNS2_18task_group_contextE(task_t* t, ctx_t* c) {
   VP_ASSERT(c == run_ctx, "task spawned into a foreign context");
   VP_ASSERT(nbag < MAXT, "VP bound: bag capacity");
+  n_spawn_plain++;
   if (nbag < MAXT) bag[nbag++] = t; }
 void _ZN3tbb6detail2r15spawnERNS0_2d14taskERNS2_18task_group_contextEt(task_t* t, ctx_t* c, u16 slot) {
-  _ZN3tbb6detail2r15spawnERNS0_2d14taskERNS2_18task_group_contextE(t, c); }
+  _ZN3tbb6detail2r15spawnERNS0_2d14taskERNS2_18task_group_contextE(t, c); n_spawn_plain--; n_spawn_slot++; }
 u16 _ZN3tbb6detail2r114execution_slotEPKNS0_2d114execution_dataE(ed_t* ed) { return (u16)cur_slot; }
 u32 _ZN3tbb6detail2r115max_concurrencyEPKNS0_2d115task_arena_baseE(struct S_class_tbb__detail__d1__task_arena_base* a) { return MAXCONC; }
 u8 _ZN3tbb6detail2r128is_group_execution_cancelledERNS0_2d118task_group_contextE(ctx_t* c) {
@@ -194,7 +199,7 @@ u8 _ZN3tbb6detail2r128is_group_execution_cancelledERNS0_2d118task_group_contextE
 /* affinity_partitioner's slot array: factor(16) * max_concurrency entries of slot_id */
 static u16 aff_array[16 * MAXCONC]; static int aff_live;
 u8* _ZN3tbb6detail2r122cache_aligned_allocateEm(u64 n) {
-  VP_ASSERT(n == sizeof(aff_array) && !aff_live, "VP: unexpected cache_aligned_allocate"); aff_live = 1; return (u8*)aff_array; }
+  VP_ASSERT(n == sizeof(aff_array) && !aff_live, "VP: unexpected cache_aligned_allocate"); aff_live = 1; n_aff_alloc++; return (u8*)aff_array; }
 void _ZN3tbb6detail2r124cache_aligned_deallocateEPv(u8* p) { VP_ASSERT(p == (u8*)aff_array && aff_live, "cache_aligned_deallocate of a foreign block"); aff_live = 0; }
 void _ZN3tbb6detail2r114notify_waitersEm(u64 addr) { VP_ASSERT(addr == (u64)run_wait, "notify for a foreign wait object"); n_notify++; }
 
@@ -233,6 +238,11 @@ static void run_some(void) {
 }
 void _ZN3tbb6detail2r116execute_and_waitERNS0_2d14taskERNS2_18task_group_contextERNS2_12wait_contextES6_(task_t* t, ctx_t* tc, wait_t* w, ctx_t* wc) {
   run_ctx = tc; run_wait = w; cur_slot = 0;
+#ifdef OVERLOADS
+  VP_ASSERT(tc == wc, "tasks and wait use different contexts");
+  if (want_user_ctx == 1) VP_ASSERT(tc == vp_user_ctx(), "overload with a task_group_context argument: the tasks do not run in the context the user passed");
+  if (want_user_ctx == 0) VP_ASSERT(tc != vp_user_ctx(), "overload without a context argument runs in the user's context object");
+#endif
   { ed_t ed; vp_ed_init(&ed, run_ctx); run_chain(t, &ed); }   /* the root task is run by the calling thread, never stolen */
   n_waits++;
   for (unsigned s = 0; s < MAXT; s++) if (nbag > 0) { unsigned d = n_drain++; run_one(take(drainmask >> d & 1)); }
@@ -259,6 +269,45 @@ static void check_run(void) {
     VP_ASSERT(vp_result_seq() == expect, "result is not the left-to-right fold: operand lost, duplicated or reordered");
   }
 }
+static void reset_run(void) {
+  for (unsigned i = 0; i < MAXB; i++) { split_from[i] = 0; joined[i] = 0; destroyed[i] = 0; active[i] = 0; }
+  n_bodies = 1; n_alloc = n_free = n_notify = n_tasks_run = n_hooks = n_drain = n_cancel_points = n_waits = n_dispatch = 0; nbag = 0; depth = 0;
+  n_spawn_plain = n_spawn_slot = n_aff_alloc = n_leaves = 0; aff_live = 0;
+}
+#ifdef OVERLOADS
+/* One public overload per unit (w_overloads.cpp -DVP_OVL=k) against the engine it is documented to be, called directly.
+ * order 1 = plain LIFO, nothing stolen, no overlap; order 2 = the order of the scenario (default: during the first body invocation
+ * a thief runs the oldest task = the right child of the outermost split, every taken task counts as stolen).
+ *   run A reference engine, order 1;  run B overload, order 1;  run C overload, order 2;  run D reference engine, order 2
+ * deterministic overloads: fingerprint(B) == fingerprint(C) == fingerprint(A) (tree depends on range and grain only, and is the
+ * tree of the documented engine/partitioner); every overload: B matches A and C matches D in fingerprint, result, number of
+ * bodies/tasks/leaves and partitioner signature (plain spawns, slot-directed spawns, affinity-array allocations); the tasks
+ * run in the user's context iff the overload takes one; plus all reduce_bag oracles in every run. */
+struct sig { u32 shape; unsigned bodies, tasks, leaves, sp, ss, aff; };
+static struct sig take_sig(void) { struct sig g = { vp_result_shape(), n_bodies, n_tasks_run, n_leaves, n_spawn_plain, n_spawn_slot, n_aff_alloc }; return g; }
+static int same_part(struct sig a, struct sig b) { return a.leaves == b.leaves && a.sp == b.sp && a.ss == b.ss && a.aff == b.aff && a.tasks == b.tasks; }
+static void order(int which) {
+  if (which == 1) { nestmask = 0; drainmask = 0; force_local = 1; } else { nestmask = NESTMASK; drainmask = DRAIN; force_local = 0; }
+}
+int main(void) {
+  int det = vp_ovl_deterministic();
+  vp_make_user_ctx();
+  order(1); want_user_ctx = 0; vp_call_reference(0, NELEM, GRAIN); check_run(); struct sig A = take_sig(); reset_run();
+  order(1); want_user_ctx = vp_ovl_has_ctx(); vp_call_overload(0, NELEM, GRAIN); check_run(); struct sig B = take_sig(); reset_run();
+  order(2); want_user_ctx = vp_ovl_has_ctx(); vp_call_overload(0, NELEM, GRAIN); check_run(); struct sig C = take_sig(); reset_run();
+  order(2); want_user_ctx = 0; vp_call_reference(0, NELEM, GRAIN); check_run(); struct sig D = take_sig();
+  VP_ASSERT(B.shape == A.shape, "overload: join tree / leaf ranges differ from the documented engine and partitioner (plain LIFO order)");
+  VP_ASSERT(C.shape == D.shape, "overload: join tree / leaf ranges differ from the documented engine and partitioner (stolen right children)");
+  VP_ASSERT(same_part(A, B) && same_part(C, D), "overload: partitioner behaves differently from the requested kind (leaves / spawn kinds / affinity array / tasks)");
+  VP_ASSERT(B.bodies == A.bodies && C.bodies == D.bodies || !vp_ovl_body_form(), "overload: number of split bodies differs from the documented engine");
+  if (det) {
+    VP_ASSERT(C.shape == B.shape, "deterministic overload: join tree / leaf ranges depend on the task order");
+    VP_ASSERT(C.shape == A.shape && D.shape == A.shape, "deterministic overload: fingerprint differs from the reference fingerprint of (range, grain)");
+    VP_ASSERT(C.tasks == B.tasks && C.leaves == B.leaves, "deterministic overload: number of tasks / leaves depends on the task order");
+  }
+  VP_REACHED();
+}
+#else
 int main(void) {
 #ifdef DETERMINISTIC
   /* run 1: reference order (owner-like LIFO, nothing stolen, no overlap); run 2: the order of this query. The body's second
@@ -269,8 +318,7 @@ int main(void) {
   VP_ASSERT(!cancelled, "VP: reference run cancelled");
   check_run();
   u32 ref_shape = vp_result_shape(); unsigned ref_bodies = n_bodies, ref_tasks = n_tasks_run;
-  for (unsigned i = 0; i < MAXB; i++) { split_from[i] = 0; joined[i] = 0; destroyed[i] = 0; active[i] = 0; }
-  n_bodies = 1; n_alloc = n_free = n_notify = n_tasks_run = n_hooks = n_drain = n_cancel_points = n_waits = n_dispatch = 0; nbag = 0; depth = 0;
+  reset_run();
   nestmask = NESTMASK; drainmask = DRAIN; force_local = 0;
   vp_reduce(0, NELEM, GRAIN);
   check_run();
@@ -284,3 +332,4 @@ int main(void) {
 #endif
   VP_REACHED();
 }
+#endif
